@@ -48,7 +48,7 @@ func c05Inputs() []inputs.Input {
 		I("json", 40, 0, 0), I("json", 3000, 0, 0), I("json", 6000, 0, 0),
 		I("json_trunc", 400, 300, 0), I("json_bad", 400, 200, 1),
 		I("geojson", 0, 0, 0), I("geojson", 4000, 0, 1), I("har", 10, 0, 0), I("gltf", 10, 0, 0),
-		I("ndjson", 5, 0, 0), I("ndjson", 100, 0, 0), I("ndjson_bad", 6, 3, 0),
+		I("ndjson", 5, 0, 0), I("ndjson", 100, 0, 0), I("ndjson_bad", 6, 3, 0), I("json_lines", 4, 6, 0x3c), I("json_lines", 6, 1, 0),
 		I("csv", 4, 0, 3), I("csv_big", 400, 0, 4), I("csv_ragged", 8, 5, 3), I("tsv", 6, 0, 2),
 		I("html_meta", 50, 0, 1), I("html_meta", 50, 3100, 2), I("xml_enc", 30, 0, 1),
 		I("latin1", 64, 10, 1), I("bom16", 20, 0, 0),
@@ -219,7 +219,7 @@ func coarsen(d *simio.Delivery, n int) *simio.Delivery {
 func c05DeliveryRaw(r *core.Rand, class int, k int, withData bool) *simio.Delivery {
 	d := &simio.Delivery{FaultAt: k, FaultWithData: withData}
 	if k >= 0 && r.Chance(1, 3) {
-		d.ErrWraps = 1 + r.Intn(7)
+		d.ErrWraps = 1 + r.Intn(simio.NFlavours-1)
 	}
 	if k >= 0 && r.Chance(1, 4) {
 		d.Recover = true
@@ -519,8 +519,11 @@ func (c *c05) Check(rr *RunResult, st *Stats) []Failure {
 			if d.ErrWraps > 0 && d.ErrWraps < 3 {
 				st.Fault("read_error_wrapping_eof")
 			}
-			if d.ErrWraps >= 3 {
+			if d.ErrWraps >= 3 && d.ErrWraps < 8 {
 				st.Fault("read_error_calling_itself_temporary")
+			}
+			if d.ErrWraps >= 8 {
+				st.Fault("read_error_of_uncomparable_type")
 			}
 			if d.Recover {
 				st.Fault("read_error_transient")
